@@ -481,6 +481,7 @@ fn cmd_miri_gen(args: &[String]) {
     let master = arg_u64(args, "--seed", 1);
     let count = arg_u64(args, "--count", 1);
     let dir = arg(args, "--out").unwrap_or_else(|| die("--out <dir>"));
+    std::panic::set_hook(Box::new(|_| {}));
     std::fs::create_dir_all(dir).unwrap_or_else(|e| die(&format!("{}", e)));
     let mut written = 0;
     let mut index = 0u64;
